@@ -29,6 +29,8 @@ func main() {
 		cmdEnum(os.Args[2:])
 	case "struct":
 		cmdStruct(os.Args[2:])
+	case "calls":
+		cmdCalls(os.Args[2:])
 	case "rules":
 		cmdRules(os.Args[2:])
 	default:
